@@ -590,8 +590,27 @@ func c12R5(p *Prog, r *Report, sites []*relaySite) {
 		if v.Node == nil {
 			continue
 		}
-		s := exprStr(v.Node)
-		if strings.Contains(s, "<-ctx.Done()") || s == "cancel()" {
+		// a receive from <a context.Context>.Done(), or a call of a context.CancelFunc value,
+		// whatever the variables are called
+		hit := false
+		inspectNoLit(v.Node, func(n ast.Node) bool {
+			switch x := n.(type) {
+			case *ast.UnaryExpr:
+				if x.Op == token.ARROW {
+					if c, ok := ast.Unparen(x.X).(*ast.CallExpr); ok {
+						if fn := Callee(run.Info(), c); fn != nil && fn.Name() == "Done" && fn.Pkg() != nil && fn.Pkg().Path() == "context" {
+							hit = true
+						}
+					}
+				}
+			case *ast.CallExpr:
+				if t := run.Info().TypeOf(x.Fun); t != nil && types.TypeString(t, nil) == "context.CancelFunc" {
+					hit = true
+				}
+			}
+			return true
+		})
+		if hit {
 			if _, isDefer := v.Node.(*ast.DeferStmt); !isDefer {
 				cancelled = append(cancelled, v.ID)
 			}
